@@ -1,15 +1,16 @@
 # orchestrator configuration of the C06 check (loaded by tools/props.py)
-from stack import FULL_STACK, FULL_DEPS
+from stack import FULL_STACK, FULL_DEPS, QUIC_STACK, QUIC_DEPS
 
 SPEC = dict(
     pkg="./harness/c06",
-    instrument=FULL_STACK,
-    deps=FULL_DEPS,
+    instrument=FULL_STACK + QUIC_STACK,
+    deps=FULL_DEPS + QUIC_DEPS,
     level="exploration",
     level_text=("seeded search over schedules of real swarms on a simulated network: every lock, channel operation, select and "
                 "goroutine start of swarm, emitter, eventbus, upgrader, yamux, multistream is a scheduling decision; tasks race "
                 "dials in both directions, early inbound streams, local/remote/by-peer closes, closes from inside notifiee "
-                "callbacks and Swarm.Close; exactly-once / ordering / truthfulness oracles over stamped histories"),
+                "callbacks and Swarm.Close; exactly-once / ordering / truthfulness oracles over stamped histories; direct connections over "
+                "TCP, over real QUIC (quic-go instrumented, simulated UDP) or both raced by the dial ranker"),
     level_note=("trusted: testing/synctest, the overlay rewrite, simnet's TCP model; limited connections are raw connections marked limited by the simulated transport "
                 "(the way the circuit transport marks relayed ones), not real relay circuits; notifiee callbacks of the swarm under observation only"),
     technique="deterministic simulation: seeded lock-level scheduler over instrumented swarm stack on simnet, history oracles",
@@ -20,7 +21,7 @@ SPEC = dict(
           "close one connection locally, close remotely, ClosePeer, Swarm.Close, sleep, dial in over the peer's LIMITED path, close the limited connections) and a seeded schedule with optional "
           "stalls; non-trivial = at least one connection was observed; distinct = distinct (schedule hash, per-connection "
           "callback counts, per-peer event sequences)"),
-    probes=["early-inbound-stream", "swarm-closed-by-actor", "notconnected-event", "limited-connection", "downgrade-connected-to-limited", "upgrade-limited-to-connected"],
+    probes=["early-inbound-stream", "swarm-closed-by-actor", "notconnected-event", "limited-connection", "downgrade-connected-to-limited", "upgrade-limited-to-connected", "quic-connection-seen", "direct-connections-over-quic", "direct-connections-over-quic-and-tcp"],
     real=["swarm (conns, emitter, dial, listen, streams) — instrumented", "eventbus — instrumented", "upgrader, tcp dial path, insecure security, "
           "yamux, multistream — instrumented", "pstoremem"],
     stubs=["wire: simnet TCP model"],
